@@ -116,3 +116,65 @@ pub fn run_session(
         Ok(t)
     })
 }
+
+// ------------------------------------------------------------------------------------------------
+// independent encoder for the pinned byte layout of a signed entry (postcard):
+//   64-byte author signature, 64-byte namespace signature, varint-prefixed id bytes
+//   (namespace ‖ author ‖ key), varint len, 32-byte hash, varint timestamp
+
+pub fn varint(mut v: u64, out: &mut Vec<u8>) {
+    loop {
+        let b = (v & 0x7F) as u8;
+        v >>= 7;
+        if v == 0 {
+            out.push(b);
+            return;
+        }
+        out.push(b | 0x80);
+    }
+}
+
+pub fn encode_signed_entry_raw(
+    author_sig: &[u8; 64],
+    namespace_sig: &[u8; 64],
+    namespace: &[u8; 32],
+    author: &[u8; 32],
+    key: &[u8],
+    len: u64,
+    hash: &[u8; 32],
+    ts: u64,
+) -> Vec<u8> {
+    let mut out = Vec::with_capacity(200 + key.len());
+    out.extend_from_slice(author_sig);
+    out.extend_from_slice(namespace_sig);
+    varint(64 + key.len() as u64, &mut out);
+    out.extend_from_slice(namespace);
+    out.extend_from_slice(author);
+    out.extend_from_slice(key);
+    varint(len, &mut out);
+    out.extend_from_slice(hash);
+    varint(ts, &mut out);
+    out
+}
+
+/// An entry with arbitrary (possibly invalid) field values and signatures, built through the
+/// public serde encoding.
+pub fn forge_entry(
+    author_sig: &[u8; 64],
+    namespace_sig: &[u8; 64],
+    namespace: &[u8; 32],
+    author: &[u8; 32],
+    key: &[u8],
+    len: u64,
+    hash: &[u8; 32],
+    ts: u64,
+) -> Result<SignedEntry, String> {
+    let bytes = encode_signed_entry_raw(author_sig, namespace_sig, namespace, author, key, len, hash, ts);
+    postcard::from_bytes(&bytes).map_err(|e| format!("forge_entry: {e:?}"))
+}
+
+/// The two signatures of an entry, as raw bytes (taken from its encoding).
+pub fn signatures_of(e: &SignedEntry) -> ([u8; 64], [u8; 64]) {
+    let b = postcard::to_stdvec(e).expect("encode");
+    (b[..64].try_into().unwrap(), b[64..128].try_into().unwrap())
+}
